@@ -531,7 +531,7 @@ func (x *e1) checkHangs(phase string) {
 		return
 	}
 	// after an I/O fault or a close nothing may stay inside a call
-	if x.ioFired() && len(relevant) > 0 {
+	if x.ioFired() && len(relevant) > 0 && !x.blindOnly() {
 		x.viol("fault-hang", fmt.Sprintf("blocked-forever after transport fault calls=[%s]", describe(relevant)),
 			fmt.Sprintf("phase=%s census=%v lib=%v", phase, calls, x.libCensus()))
 	}
@@ -604,6 +604,19 @@ func (x *e1) serverBlind() bool {
 		return false
 	}
 	return true
+}
+
+// blindOnly: the only thing that failed is the endpoint of a server that cannot
+// notice it (its reader is parked behind an unread message): nothing tells the
+// client either, so its calls cannot be expected to return.
+func (x *e1) blindOnly() bool {
+	_, trClose := x.did["tr-close"]
+	for _, f := range x.cep.Faults {
+		if f.Fired && f.Kind != "peer-close" {
+			return false
+		}
+	}
+	return x.serverBlind() && x.closeStep == 0 && !trClose
 }
 
 func (x *e1) ioFired() bool {
@@ -958,15 +971,9 @@ func (x *e1) checkFaultContainment() {
 	}
 	_, lateServe := x.did["serve-cancel"]
 	_, trClose := x.did["tr-close"]
-	clientFault := false
-	for _, f := range x.cep.Faults {
-		if f.Fired && f.Kind != "peer-close" {
-			clientFault = true
-		}
-	}
 	// if only the server's endpoint failed and the server cannot notice (its reader is
 	// parked behind an unread message), nothing tells the client either
-	blindOnly := x.serverBlind() && !clientFault && x.closeStep == 0 && !trClose
+	blindOnly := x.blindOnly()
 	if (fault || x.closeStep > 0 || trClose || !lateServe) && !blindOnly {
 		if !connClosed(x.conn) {
 			o := "fault-closed"
